@@ -80,6 +80,9 @@ def oracle_verdict(o):
     if o is None:
         return None
     bad = o.get("oracle") == "BAD" or o.get("oracle2") == "BAD"
+    if o.get("kind") == "READ" and o.get("specat") == "BAD":
+        return ("a read that starts at a recorded snapshot does not return exactly the saved entries above its index "
+                "(a segment that still holds them was not selected: segment names <seq>-<first index> are wrong, or entries were dropped)")
     if o.get("kind") == "READ" and o.get("spec") == "BAD":
         return "a fully synced directory does not read back as the script specifies (metadata, last hard state, entry log of spec_run)"
     if o.get("kind") == "K":
@@ -274,7 +277,7 @@ class Block:
         self.dirs = collections.OrderedDict()   # did -> dict(nops, files=[(seq, idx, bytes)])
         for l in hdr[1:]:
             fs = l.split()
-            if fs[0] in ("OPSAVE", "OPSNAP", "OPCUT"):
+            if fs[0] in ("OPSAVE", "OPSNAP", "OPCUT", "OPREOPEN"):
                 self.ops.append(fs)
             elif fs[0] == "DIR":
                 self.dirs[fs[1]] = dict(nops=int(fs[3]), files=[])
@@ -294,6 +297,9 @@ class Block:
                 res.append(int(o[5]) + (1 if st else 0))
             elif o[0] == "OPSNAP":
                 res.append(1)
+            elif o[0] == "OPREOPEN":
+                res.append(0)
+                nonempty = False      # ReadAll does not restore w.state
             elif o[0] == "OPCUT" and res:
                 res[-1] += 2 + (1 if nonempty else 0)
         return res
@@ -562,10 +568,16 @@ def report_wal_failure(ctx, d, blocks, key, category, why, impl, model, oracle, 
                     f = [] if err else failing(i2, m2, o2, known_open)
                     if f:
                         k2 = f[0][0]
+                        names = {}
+                        for l in text.splitlines():
+                            fs2 = l.split()
+                            if fs2 and fs2[0] == "F":
+                                names.setdefault(fs2[1], []).append("%016x-%016x.wal" % (int(fs2[2], 16), int(fs2[3], 16)))
                         return lib.violation(PID, dict(
-                            kind="wal-writer", why="the directory written by the real Create/Save/SaveSnapshot/cut (or its read-back) differs from the writer model (w_run/w_files)",
+                            kind="wal-writer", why="the directory written by the real Create/Save/SaveSnapshot/cut/Close+Open (or its read-back) differs from the writer model (s_run_d/w_files): segment file names <seq>-<index of the first entry it may hold> and contents are compared",
+                            real_segment_names=names.get(k2.split()[1] if k2.startswith("D ") else "", names),
                             script=[hdr[0]] + ops[:k], mutation="MUT READ 0 0", key=k2, impl=i2.get(k2), model=m2.get(k2), cases=text))
-                keep = [l for l in hdr if l.split()[0] in ("WAL", "OPSAVE", "OPSNAP", "OPCUT") or l.split()[1] == cid]
+                keep = [l for l in hdr if l.split()[0] in ("WAL", "OPSAVE", "OPSNAP", "OPCUT", "OPREOPEN") or l.split()[1] == cid]
                 obj = dict(kind="wal-writer", why="the directory written by the real Create/Save/SaveSnapshot/cut differs from the writer model (w_run/w_files)",
                            dir=cid, impl=impl.get(key), model=model.get(key), script=[hdr[0]] + ops, mutation="MUT READ 0 0", cases="\n".join(keep) + "\n")
                 return lib.violation(PID, obj)
@@ -856,6 +868,8 @@ def run(ctx):
                     stats["two_life_scenarios"] += 1
                 if kind == "READ" and o.get("spec") == "ok":
                     stats["reads_checked_against_spec_run"] += 1
+                if kind == "READ" and o.get("specat") == "ok":
+                    stats["snapshot_reads_checked_against_spec"] += 1
                 if kind in ("READ", "K", "T", "L") or "err:" in v or (kind == "Z" and "repair" in v):
                     stats["nontrivial"] += 1
                 ov = oracle_verdict(o)
